@@ -73,7 +73,7 @@ Verdict(r) ==
            LET row == Map[RowIx(r.unit.bank, r.value)]
                locs == [j \in 1..row[4] |-> row[3] + j - 1]
                \* answer the unit owes to the j-th read of the value
-               ans(j) == IF u0.fault.kind # "none" /\ u0.fault.at = j THEN u0.fault.kind
+               ans(j) == IF u0.fault.kind # "none" /\ u0.fault.at = j THEN (IF u0.fault.kind = "silent" THEN "silent" ELSE "err")
                          ELSE IF Readable(r.unit.mem, locs[j]) THEN "val" ELSE "silent"
                bad == {j \in 1..row[4] : ans(j) # "val"}
                first == IF bad = {} THEN 0 ELSE CHOOSE j \in bad : \A x \in bad : j <= x
